@@ -33,11 +33,10 @@ open Juno.C09
 
 /-! ## Filter semantics and the specification -/
 
-/-- `MatchesEventKeys` against the Starknet API text ("per key (by position), designate the possible
-values to be matched … empty array designates 'any' value"): the event has at least as many keys as
-the filter has positions and every position is unconstrained or holds one of its alternatives. The
-length requirement for TRAILING unconstrained positions is juno's reading of that text (an event
-with fewer keys has no key at that position to be "any" of); it is listed under `assumptions`. -/
+/-- `MatchesEventKeys` in declarative form: the event has at least as many keys as the filter has
+positions and every position is unconstrained or holds one of its alternatives. The length
+requirement for TRAILING unconstrained positions is juno's reading of the JSON-RPC specification
+(whose text is not in the repository and could not be compared): listed under `assumptions`. -/
 theorem matchesKeys_spec (fk : List (List Nat)) (ek : List Nat) :
     matchesKeys fk ek = true ↔
       ∃ h : fk.length ≤ ek.length, ∀ i (hi : i < fk.length), fk[i] = [] ∨ ek[i]'(by omega) ∈ fk[i] := by
